@@ -190,7 +190,10 @@ SUSPENDABLE = ["CLIENT_FACADE_TEARDOWN", "CLIENT_FACADE_IS_READY", "RUNNING_SPA_
 
 
 def suspend_maps():
-    return st.dictionaries(st.sampled_from(SUSPENDABLE), st.sampled_from([0.05, 0.3, 0.8]), max_size=3)
+    short = st.dictionaries(st.sampled_from(SUSPENDABLE), st.sampled_from([0.05, 0.3, 0.8]), max_size=3)
+    # a client that is slow to take note of a discovered spa: longer than the discovery's initial wait / its whole window
+    slow = st.sampled_from([5.0, 12.0]).map(lambda d: {"LOCATING_DISCOVERED_SPA": d})
+    return st.one_of(short, short, short, st.builds(lambda a, b: dict(a, **b), short, slow))
 
 
 def strategy(tier):
@@ -388,7 +391,7 @@ def _run_A(res, case):
                     tasks.append(asyncio.ensure_future(man.async_set_spa_info(None, manager.SPA_ID_STR, "Spa")))
                 else:
                     raise InvalidCase(what)
-            await W.sleep(6.0)
+            await W.sleep(6.0 + 3 * max(list(man.suspend_map.values()) + [0.0]))
             for t in tasks:
                 if not t.done():
                     t.cancel()
@@ -428,8 +431,19 @@ def _run_B(res, case):
     res.label("layer-B", f"readies-{min(readies, 3)}")
 
 
+def _check_vocabulary(res):
+    """the lifecycle table has one row per event and one column per state: no two names may denote the same member"""
+    from geckolib import GeckoSpaEvent as E, GeckoSpaState as S
+    for enum in (E, S):
+        for name, member in enum.__members__.items():
+            if member.name != name:
+                res.fail(f"C08|table|alias|{name}", f"{enum.__name__}.{name} is the same member as {enum.__name__}.{member.name} (value {member.value!r}): "
+                         f"the manager cannot tell the two apart")
+
+
 def run_case(case) -> Result:
     res = Result()
+    _check_vocabulary(res)
     if case.get("k") == "A":
         _run_A(res, case)
     elif case.get("k") == "B":
